@@ -26,6 +26,12 @@ fn gen_conn(rng: &mut Rng, i: usize, max_calls: usize, small: bool) -> ConnScn {
         }
     }
     let mut c = ConnScn { calls, ..Default::default() };
+    // stray terminators (empty frames) between, behind or in front of the rest of a burst: every sixth client
+    if !c.calls.is_empty() && rng.chance(1, 6) {
+        for _ in 0..rng.range(1, 2) {
+            c.stray.push((rng.below(c.calls.len()), rng.range(1, 3)));
+        }
+    }
     let stream = c.stream(i as u32);
     c.cuts = match rng.below(4) {
         0 => vec![],
@@ -72,6 +78,7 @@ fn check(scn: &Scenario, rep: &mut Report) {
         rep.add("wake_driven_waker_firings", out.wakes);
     }
     rep.add("in_handle_arrivals", out.applied.iter().filter(|a| a.2).count() as u64);
+    rep.add("clients_with_stray_terminators", scn.conns.iter().filter(|c| !c.stray.is_empty()).count() as u64);
     rep.add("oneway_calls", scn.conns.iter().flat_map(|c| c.calls.iter()).filter(|c| c.oneway).count() as u64);
     let mut stats = std::collections::BTreeMap::new();
     let vs = check_reference("C08", scn, &out, &mut stats);
@@ -109,7 +116,7 @@ pub fn run(cfg: &Cfg) -> Report {
             c.write_pending_polls = 0;
             scn.conns.push(c);
         }
-        let eof: Vec<bool> = (0..nconn).map(|_| rng.chance(1, 3)).collect();
+        let eof: Vec<bool> = (0..nconn).map(|i| scn.conns[i].stray.is_empty() && rng.chance(1, 3)).collect();
         scn.wake = k % 2 == 1;
         let ch = chains(&scn, &eof);
         let total = count_interleavings(&ch.iter().map(|c| c.len()).collect::<Vec<_>>());
@@ -144,7 +151,7 @@ pub fn run(cfg: &Cfg) -> Report {
         for i in 0..nconn {
             scn.conns.push(gen_conn(&mut rng, i, 5, miri));
         }
-        let eof: Vec<bool> = (0..nconn).map(|_| rng.chance(1, 3)).collect();
+        let eof: Vec<bool> = (0..nconn).map(|i| scn.conns[i].stray.is_empty() && rng.chance(1, 3)).collect();
         let ch = chains(&scn, &eof);
         let order = random_interleaving(&ch, &mut rng);
         scn.wake = rng.chance(1, 3);
